@@ -2753,3 +2753,230 @@ func H_C15_reattachText(v int) {
 		verifAssert(err != nil, "C15: re-attach is refused when an argument value of the invocation changed")
 	}
 }
+
+const vrStatInDynSrc = `
+stage GEN(
+    out int[] arr,
+    src comp  "g",
+)
+
+stage WORK(
+    in  int x,
+    in  int y,
+    out int r,
+    src comp "w",
+)
+
+pipeline INNER(
+    in  int   x,
+    out int[] rs,
+)
+{
+    map call WORK(
+        x = self.x,
+        y = split [
+            10,
+            20,
+            30,
+        ],
+    )
+
+    return (
+        rs = WORK.r,
+    )
+}
+
+pipeline TOP(
+    out int[][] rs,
+)
+{
+    call GEN()
+
+    map call INNER(
+        x = split GEN.arr,
+    )
+
+    return (
+        rs = INNER.rs,
+    )
+}
+
+call TOP()
+`
+
+func vrStatInDynGraph() *vrReal {
+	disableUniquification = false
+	return verifCached("vrStatInDynGraph", func() any {
+		rt := &Runtime{Config: &RuntimeOptions{JobMode: "local", VdrMode: VdrDisable}, mrjob: "/m/mrjob", adaptersPath: "/m/adapters"}
+		_, _, ps, err := rt.instantiatePipeline([]byte(vrStatInDynSrc), "/m/p.mro", "ps", "/ps", nil, "none", nil, false, true, context.Background())
+		if err != nil {
+			panic("fixture does not instantiate: " + err.Error())
+		}
+		n := func(name string) *Node { return ps.node.top.allNodes["ID.ps.TOP."+name] }
+		return &vrReal{ps, n("GEN"), n("INNER.WORK"), nil}
+	}).(*vrReal)
+}
+
+// H_C11_forkOfNotification(n): WORK is mapped over a literal array of three
+// elements inside a pipeline mapped over an array of n elements which a stage
+// produces at run time.  For every fork of WORK, the name under which its jobs
+// write their notifications into the journal is parsed the way mrp does
+// (parseRunFilename) and looked up with Node.getFork.
+//
+//	C11: every notification is attributed to the fork that wrote it, and the
+//	     forks have distinct names.
+func H_C11_forkOfNotification(n int) {
+	w := vrStatInDynGraph()
+	vrOuts = map[*Metadata]LazyArgumentMap{}
+	xs := make([]json.RawMessage, n)
+	for i := range xs {
+		xs[i] = vrDigit("element")
+	}
+	vrOuts[w.gen.forks[0].metadata] = LazyArgumentMap{"arr": vrArray(xs)}
+	w.work.expandForks(true)
+	verifCover("forks of a static call inside a run-time mapped pipeline expanded")
+	verifAssert(len(w.work.forks) == 3*n, "C03: one fork per combination of outer and inner element")
+	top := w.work.top
+	for i, f := range w.work.forks {
+		name := f.fqname[len(top.fqname)+1:] + ".complete"
+		fq, forkIndex, ci, _, st := w.work.parseRunFilename(name)
+		verifAssert(fq == "TOP.INNER.WORK" && ci == -1 && st == "complete", "the journal name of a fork parses back")
+		verifAssert(w.work.getFork(forkIndex) == f, "C11: a notification written by a job of one fork is attributed to that fork, not to the fork at that position of the list")
+		for j, g := range w.work.forks {
+			if j != i {
+				verifAssert(g.fqname != f.fqname && g.path != f.path, "C11: distinct forks have distinct journal names and directories")
+			}
+		}
+	}
+}
+
+const vrTwoTimesSrc = `
+stage GEN(
+    in  string   k,
+    out map<int> m,
+    out int      n,
+    src comp     "g",
+)
+
+stage WORK(
+    in  int x,
+    out int r,
+    src comp "w",
+)
+
+pipeline INNER(
+    in  string k,
+    out int    n,
+)
+{
+    call GEN(
+        k = self.k,
+    )
+
+    map call WORK(
+        x = split GEN.m,
+    )
+
+    return (
+        n = GEN.n,
+    )
+}
+
+pipeline TOP(
+    out map<int> ns,
+)
+{
+    map call INNER(
+        k = split {
+            "a": "a",
+            "b": "b",
+        },
+    )
+
+    return (
+        ns = INNER.n,
+    )
+}
+
+call TOP()
+`
+
+func vrTwoTimesGraph() *vrReal {
+	disableUniquification = false
+	return verifCached("vrTwoTimesGraph", func() any {
+		rt := &Runtime{Config: &RuntimeOptions{JobMode: "local", VdrMode: VdrDisable}, mrjob: "/m/mrjob", adaptersPath: "/m/adapters"}
+		_, _, ps, err := rt.instantiatePipeline([]byte(vrTwoTimesSrc), "/m/p.mro", "ps", "/ps", nil, "none", nil, false, true, context.Background())
+		if err != nil {
+			panic("fixture does not instantiate: " + err.Error())
+		}
+		n := func(name string) *Node { return ps.node.top.allNodes["ID.ps.TOP."+name] }
+		return &vrReal{ps, n("INNER.GEN"), n("INNER.WORK"), nil}
+	}).(*vrReal)
+}
+
+func vrOwnFork(node *Node, f *Fork) bool {
+	top := node.top
+	name := f.fqname[len(top.fqname)+1:] + ".complete"
+	_, forkIndex, _, _, _ := node.parseRunFilename(name)
+	return node.getFork(forkIndex) == f
+}
+
+// H_C11_lateFork(na, nb): WORK is mapped over a typed map which a producer
+// inside each fork of an enclosing mapped pipeline writes.  The producer of
+// outer fork a finishes first (na keys): WORK's forks for a are created and
+// their jobs' notifications are looked up.  Later the producer of outer fork b
+// finishes with nb keys (1: the placeholder fork is renamed in place).
+//
+//	C11: at either time every notification is attributed to the fork whose job
+//	     wrote it.
+func H_C11_lateFork(na, nb int) {
+	w := vrTwoTimesGraph()
+	vrOuts = map[*Metadata]LazyArgumentMap{}
+	keys := "pqr"
+	mapOf := func(n int) json.RawMessage {
+		out := []byte{'{'}
+		for i := 0; i < n; i++ {
+			if i > 0 {
+				out = append(out, ',')
+			}
+			out = append(out, ("\"" + keys[i:i+1] + "\":")...)
+			out = append(out, vrDigit("value")...)
+		}
+		return append(out, '}')
+	}
+	var genA, genB *Fork
+	for _, f := range w.gen.forks {
+		if strings.HasSuffix(f.fqname, "fork_a") {
+			genA = f
+		} else {
+			genB = f
+		}
+	}
+	if genA == nil || genB == nil {
+		verifAssert(false, "the producer has one fork per key of the enclosing map call")
+		return
+	}
+	vrOuts[genA.metadata] = LazyArgumentMap{"m": mapOf(na)}
+	w.work.expandForks(false)
+	verifCover("forks of the first outer fork expanded")
+	resolved := 0
+	for _, f := range w.work.forks {
+		if strings.Contains(f.fqname, "fork_a") && f.forkId[len(f.forkId)-1].Id.IndexSource() == nil {
+			resolved++
+			verifAssert(vrOwnFork(w.work, f), "C11: a notification of an early fork is attributed to it while other forks are still unresolved")
+		}
+	}
+	verifAssert(resolved == na, "C03: the forks of the outer fork whose collection is known exist")
+	vrOuts[genB.metadata] = LazyArgumentMap{"m": mapOf(nb)}
+	w.work.expandForks(true)
+	verifCover("forks of the late outer fork expanded")
+	verifAssert(len(w.work.forks) == na+nb, "C03: one fork per key of each outer fork's map")
+	for i, f := range w.work.forks {
+		verifAssert(vrOwnFork(w.work, f), "C11: a notification is attributed to the fork that wrote it, also for a fork which was resolved late")
+		for j, g := range w.work.forks {
+			if j != i {
+				verifAssert(g.fqname != f.fqname && g.path != f.path, "C11: distinct forks have distinct journal names and directories")
+			}
+		}
+	}
+}
